@@ -10,6 +10,24 @@
    Built with -fsanitize=address,undefined: an out-of-block access aborts the process; the check
    (checks/C06.py) turns the abort into a failing input.
 
+   Line format (one per operation; the model driver prints the same):
+     <k> <op> r=<ret> A=<ptr>,<num>,<mem>,<block size>,<block hex> B=... ev=<allocator events> acc=<..> q=<..>
+   ptr: 0 NULL, 1 live block, 2 neither (3 = object absent, c07 mode only).  The last two tokens (not in c07 mode) come from
+   the READ-ONLY API, evaluated on both objects after every operation:
+     acc=ok | acc=BAD:<function>:<got>:<want>:<object><index>
+       a_str_ptr/len/mem against the fields; a_str_at for every index 0..mem+1 (boundary set when mem > 64) and huge indices;
+       a_str_at_ for every index < mem (its precondition; only with a block); a_str_of for every index -(num+2)..mem+1 and
+       PTRDIFF_MIN/MAX; a_utf_len with and without `stop` must agree.  Expected values are recomputed here from the fields.
+     q=<A>;<B>;<c>   <X> = <a_str_ptr>,<a_str_len>,<a_str_mem>,<a_str_at_(k%mem)>,<a_str_at(k%(mem+2))>,
+                           <a_str_of(k%(num+mem+3)-(num+1))>,<a_utf_len(x,&stop)>,<stop>,<a_utf_len(x,NULL)>
+                     <c> = sign of a_str_cmp_(a_str_ptr(A), k%(len(A)+1), a_str_ptr(B), a_str_len(B))
+       pointers are printed as offsets into the object's block: '-' NULL, decimal offset (0..block size), 'W' anything else;
+       'x' = not called (a_str_at_ without a block or with mem 0; a_utf_len / a_str_cmp_ when num > mem, out of contract).
+       The model (coq/C06/StrAccDefs.v probe_str / probe_cmp) computes the same values.
+   Case directive "mk <a><b>" (before the first operation, not in c07 mode) rebuilds the two objects: s = a_str_ctor on static
+   storage / a_str_dtor, h = a_str_new / a_str_die (the object itself is a heap block), i = A_STR_INIT initialiser / a_str_dtor.
+   Operation "catv" is "catf" through a direct a_str_catv(ctx, fmt, va_list) call.
+
    With an argument ("c07") the driver also serves checks/C07_str.py: objects have a life cycle
    (ctor T / new T / die T; operations on an absent object print r=skip), the caller's free of the
    block returned by a_str_exit is part of the logged trace, "sched 110*" repeats its last digit
@@ -187,6 +205,171 @@ static void print_str(char const *name, a_str const *s)
 
 static int sign(int x) { return (x > 0) - (x < 0); }
 
+/* ------------------------------------------------------------------ read-only API (tokens acc= and q=) */
+static char accbuf[256];
+
+/* canonical pointer: '-' NULL, offset into the block of s, 'W' */
+static char const *cptr(a_str const *s, char const *p, char *out, size_t cap)
+{
+    int i = s->ptr_ ? led_find(s->ptr_) : -1;
+    if (!p) { snprintf(out, cap, "-"); }
+    else if (i >= 0 && p >= s->ptr_ && (size_t)(p - s->ptr_) <= led[i].n) { snprintf(out, cap, "%zu", (size_t)(p - s->ptr_)); }
+    else { snprintf(out, cap, "W"); }
+    return out;
+}
+
+static void acc_bad(char const *fn, char const *got, char const *want, char obj, long long idx)
+{
+    if (!accbuf[0]) { snprintf(accbuf, sizeof(accbuf), "BAD:%s:%s:%s:%c%lld", fn, got, want, obj, idx); }
+}
+
+static void acc_ptr_eq(a_str const *s, char const *fn, char const *got, char const *want, char obj, long long idx)
+{
+    if (got != want)
+    {
+        char g[32], w[32];
+        acc_bad(fn, cptr(s, got, g, sizeof(g)), cptr(s, want, w, sizeof(w)), obj, idx);
+    }
+}
+
+static void acc_num_eq(char const *fn, a_size got, a_size want, char obj)
+{
+    if (got != want)
+    {
+        char g[32], w[32];
+        snprintf(g, sizeof(g), "%zu", (size_t)got);
+        snprintf(w, sizeof(w), "%zu", (size_t)want);
+        acc_bad(fn, g, w, obj, 0);
+    }
+}
+
+static void acc_at(a_str const *s, a_size idx, char obj)
+{
+    acc_ptr_eq(s, "a_str_at", a_str_at(s, idx), idx < s->mem_ ? s->ptr_ + idx : NULL, obj, (long long)idx);
+    if (s->ptr_ && idx < s->mem_) { acc_ptr_eq(s, "a_str_at_", a_str_at_(s, idx), s->ptr_ + idx, obj, (long long)idx); }
+}
+
+static void acc_of(a_str const *s, a_diff idx, char obj)
+{
+    a_size n = idx >= 0 ? (a_size)idx : (a_size)idx + s->num_; /* unsigned wrap intended */
+    acc_ptr_eq(s, "a_str_of", a_str_of(s, idx), n < s->mem_ ? s->ptr_ + n : NULL, obj, (long long)idx);
+}
+
+static void acc_check(a_str const *s, char obj)
+{
+    a_size const num = s->num_, mem = s->mem_;
+    a_size i;
+    acc_ptr_eq(s, "a_str_ptr", a_str_ptr(s), s->ptr_, obj, 0);
+    acc_num_eq("a_str_len", a_str_len(s), num, obj);
+    acc_num_eq("a_str_mem", a_str_mem(s), mem, obj);
+    if (mem <= 64 && num <= 64)
+    {
+        a_diff j;
+        for (i = 0; i <= mem + 1; ++i) { acc_at(s, i, obj); }
+        for (j = -(a_diff)num - 2; j <= (a_diff)mem + 1; ++j) { acc_of(s, j, obj); }
+    }
+    else if (mem < ((a_size)1 << 62) && num < ((a_size)1 << 62))
+    {
+        a_size const at[] = {0, 1, num - 1, num, num + 1, mem / 2, mem - 2, mem - 1, mem, mem + 1};
+        for (i = 0; i < sizeof(at) / sizeof(at[0]); ++i)
+        {
+            acc_at(s, at[i], obj);
+            if (at[i] < ((a_size)1 << 62))
+            {
+                acc_of(s, (a_diff)at[i], obj);
+                acc_of(s, -(a_diff)at[i], obj);
+                acc_of(s, -(a_diff)at[i] - (a_diff)num, obj);
+            }
+        }
+    }
+    acc_at(s, (a_size)-1, obj);
+    acc_at(s, (a_size)1 << 63, obj);
+    acc_at(s, ((a_size)1 << 32) + 1, obj);
+    acc_of(s, (a_diff)(((a_size)1 << 63) - 1), obj);
+    acc_of(s, -(a_diff)(((a_size)1 << 63) - 1) - 1, obj);
+    acc_of(s, (a_diff)1 << 32, obj);
+    acc_of(s, -((a_diff)1 << 32), obj);
+}
+
+/* one object's part of the q= token */
+static void q_str(a_str const *s, long k)
+{
+    char b0[32], b1[32], b2[32], b3[32];
+    a_size const num = s->num_, mem = s->mem_, uk = (a_size)k;
+    a_diff const oi = (a_diff)(uk % (num + mem + 3)) - (a_diff)(num + 1);
+    if (s->ptr_ && mem) { cptr(s, a_str_at_(s, uk % mem), b1, sizeof(b1)); }
+    else { snprintf(b1, sizeof(b1), "x"); }
+    printf("%s,%zu,%zu,%s,%s,%s,", cptr(s, a_str_ptr(s), b0, sizeof(b0)), (size_t)a_str_len(s), (size_t)a_str_mem(s), b1,
+           cptr(s, a_str_at(s, uk % (mem + 2)), b2, sizeof(b2)), cptr(s, a_str_of(s, oi), b3, sizeof(b3)));
+    if (num <= mem)
+    {
+        a_size stop = (a_size)-7, n1, n0;
+        n1 = a_utf_len(s, &stop);
+        n0 = a_utf_len(s, NULL);
+        printf("%zu,%zu,%zu", (size_t)n1, (size_t)stop, (size_t)n0);
+    }
+    else { printf("x,x,x"); }
+}
+
+static void print_acc(a_str const *a, a_str const *b, long k)
+{
+    accbuf[0] = 0;
+    acc_check(a, 'A');
+    acc_check(b, 'B');
+    printf(" acc=%s q=", accbuf[0] ? accbuf : "ok");
+    q_str(a, k);
+    putchar(';');
+    q_str(b, k);
+    if (a->num_ <= a->mem_ && b->num_ <= b->mem_)
+    {
+        printf(";%d", sign(a_str_cmp_(a_str_ptr(a), (a_size)k % (a_str_len(a) + 1), a_str_ptr(b), a_str_len(b))));
+    }
+    else { printf(";x"); }
+}
+
+/* a_str_catv called directly with a va_list (operation "catv") */
+static int catfv(a_str *ctx, char const *fmt, ...)
+{
+    int res;
+    va_list va;
+    va_start(va, fmt);
+    res = a_str_catv(ctx, fmt, va);
+    va_end(va);
+    return res;
+}
+#define CATF(...) (direct ? catfv(__VA_ARGS__) : a_str_catf(__VA_ARGS__))
+
+/* (re)build object i: 's' a_str_ctor on static storage, 'h' a_str_new, 'i' A_STR_INIT */
+static void destroy(int i)
+{
+    if (P[i] && heap[i]) { a_str_die(P[i]); }
+    else if (P[i]) { a_str_dtor(P[i]); }
+    P[i] = NULL;
+    heap[i] = 0;
+}
+
+static void make(int i, char how)
+{
+    static a_str const init = A_STR_INIT;
+    destroy(i);
+    if (how == 'h')
+    {
+        P[i] = a_str_new();
+        heap[i] = 1;
+        if (!P[i])
+        {
+            printf("HARNESS: a_str_new failed without a fault schedule\n");
+            fflush(stdout);
+            abort();
+        }
+        return;
+    }
+    P[i] = &S[i];
+    memset(P[i], POISON, sizeof(a_str));
+    if (how == 'i') { *P[i] = init; }
+    else { a_str_ctor(P[i]); }
+}
+
 #define MAXTOK 8
 static unsigned char blob[1 << 16];
 static char ref[1 << 16];
@@ -240,18 +423,21 @@ int main(int argc, char **argv)
             set_sched(schedbuf2, sizeof(schedbuf2), nt > 1 ? tok[1] : "");
             continue;
         }
+        if (strcmp(tok[0], "mk") == 0)
+        {
+            if (!c07 && nt > 1 && tok[1][0] && tok[1][1])
+            {
+                make(0, tok[1][0]);
+                make(1, tok[1][1]);
+            }
+            continue;
+        }
         if (strcmp(tok[0], "end") == 0)
         {
             int i;
             sched = "";
             sched_tail = 0;
-            for (i = 0; i < 2; ++i)
-            {
-                if (P[i] && heap[i]) { a_str_die(P[i]); }
-                else if (P[i]) { a_str_dtor(P[i]); }
-                P[i] = NULL;
-                heap[i] = 0;
-            }
+            for (i = 0; i < 2; ++i) { destroy(i); }
             printf("end live=%d", nled);
             for (i = 0; i < nled; ++i) { printf("%c%zu", i ? ',' : ':', led[i].n); }
             printf("\n");
@@ -373,8 +559,9 @@ int main(int argc, char **argv)
             }
             else if (strcmp(o, "cat") == 0) { printf("i%d", a_str_cat(t, tok[2][0] == '1' ? t : u)); }
             else if (strcmp(o, "cat_") == 0) { printf("i%d", a_str_cat_(t, tok[2][0] == '1' ? t : u)); }
-            else if (strcmp(o, "catf") == 0)
+            else if (strcmp(o, "catf") == 0 || strcmp(o, "catv") == 0)
             {
+                int const direct = o[3] == 'v';
                 char mode = tok[2][0];
                 size_t bl = parse_blob(tok[3], blob, sizeof(blob));
                 size_t n = (size_t)parse_size(tok[4], t, bl), rn = 0;
@@ -384,7 +571,7 @@ int main(int argc, char **argv)
                 if (mode == 's')
                 {
                     rn = (size_t)snprintf(ref, sizeof(ref), "%s", (char *)d);
-                    r = a_str_catf(t, "%s", (char *)d);
+                    r = CATF(t, "%s", (char *)d);
                 }
                 else if (mode == 'l')
                 {
@@ -397,29 +584,29 @@ int main(int argc, char **argv)
                     }
                     f[j] = 0;
                     rn = (size_t)snprintf(ref, sizeof(ref), f, 0);
-                    r = a_str_catf(t, f, 0);
+                    r = CATF(t, f, 0);
                     free(f);
                 }
                 else if (mode == 'c')
                 {
                     size_t h = n / 2;
                     rn = (size_t)snprintf(ref, sizeof(ref), "%.*s%c%s", (int)h, (char *)d, (int)d[h], (char *)d + h + 1);
-                    r = a_str_catf(t, "%.*s%c%s", (int)h, (char *)d, (int)d[h], (char *)d + h + 1);
+                    r = CATF(t, "%.*s%c%s", (int)h, (char *)d, (int)d[h], (char *)d + h + 1);
                 }
                 else if (mode == 'd')
                 {
                     rn = (size_t)snprintf(ref, sizeof(ref), "%d", atoi(tok[5]));
-                    r = a_str_catf(t, "%d", atoi(tok[5]));
+                    r = CATF(t, "%d", atoi(tok[5]));
                 }
                 else if (mode == 'x')
                 {
                     rn = (size_t)snprintf(ref, sizeof(ref), "[%6x]", (unsigned)strtoul(tok[5], NULL, 10));
-                    r = a_str_catf(t, "[%6x]", (unsigned)strtoul(tok[5], NULL, 10));
+                    r = CATF(t, "[%6x]", (unsigned)strtoul(tok[5], NULL, 10));
                 }
                 else
                 {
                     rn = (size_t)snprintf(ref, sizeof(ref), "%05u|%-4s|", (unsigned)strtoul(tok[5], NULL, 10), "ab");
-                    r = a_str_catf(t, "%05u|%-4s|", (unsigned)strtoul(tok[5], NULL, 10), "ab");
+                    r = CATF(t, "%05u|%-4s|", (unsigned)strtoul(tok[5], NULL, 10), "ab");
                 }
                 if (rn != n || memcmp(ref, d, n) != 0) { printf("BADGEN:"); }
                 printf("i%d", r);
@@ -444,7 +631,9 @@ int main(int argc, char **argv)
             logging = 0;
             print_str("A", P[0]);
             print_str("B", P[1]);
-            printf(" ev=%s\n", evlen ? evbuf : "-");
+            printf(" ev=%s", evlen ? evbuf : "-");
+            if (!c07 && P[0] && P[1]) { print_acc(P[0], P[1], k - 1); }
+            printf("\n");
             fflush(stdout);
         }
     }
